@@ -164,6 +164,20 @@ theorem block_wrap_resolution (e : Node α) (loc : Nat) (hc : closedAt 0 (visit 
   simp only [this]
   exact wrap_sim (visit e) hc he loc st hw
 
+/-- **block wrapping for expressions** (no side condition left to check): every expression-like tree
+(`isExpr`: nothing bound at its own top level — blocks, lambdas, match cases and `if let` open their
+own scope; patterns / declarations / parameters are excluded) satisfies the hypotheses of
+`block_wrap_resolution`, by structural induction over all trees. -/
+theorem block_wrap_expr (e : Node α) (loc : Nat) (he : isExpr e = true) (st : St α) (hw : WF st) :
+    let r := run (visit e) st
+    let r' := run (visit (.mk .block none loc [e])) st
+    r'.locals = r.locals ∧ r'.captured = r.captured ∧ r'.useDef = r.useDef ∧ r'.invalid = r.invalid ∧
+    r'.defLocs = r.defLocs ∧ r'.errors = r.errors ∧ r'.unbound = r.unbound ∧
+    r'.lambdaCaps = r.lambdaCaps ∧ r'.scopedDefs = insertKV loc [] r.scopedDefs :=
+  block_wrap_resolution e loc (closed_visit_expr e he) (endDepth_visit e 0) st hw
+
+example : isExpr sampleBody = true := by decide
+
 /-- non-vacuity: the body of `sampleMember` (a block with a `let`, a capturing lambda, uses) is closed -/
 example : closedAt 0 (visit sampleBody) = true ∧ endDepth 0 (visit sampleBody) = 0 := by decide
 /-- …whereas a bare pattern is not (it binds at its own level) -/
